@@ -27,7 +27,9 @@ impl Cost {
 
 /// How a scripted state view answers.
 #[derive(Clone, Copy, PartialEq)]
-pub enum ViewMode { Exact, Fewer, More, Empty, Fail }
+pub enum ViewMode { Exact, Fewer, More, Empty, Fail,
+    /// exactly as many values as asked for (up to 6000), each of the given number of words
+    Uniform(usize) }
 
 pub type ReadLog = Arc<Mutex<Vec<(u8, Vec<u8>, Vec<Word>, usize, Option<Vec<Vec<Word>>>)>>>;
 
@@ -40,7 +42,8 @@ impl StateRead for ScriptView {
     fn key_range(&self, c: ContentAddress, key: Vec<Word>, n: usize) -> Result<Vec<Vec<Word>>, String> {
         let mut h = fnv(&format!("{}:{}:{:?}:{:?}:{}", self.tag, self.seed, c.0, key, n));
         let mut next = || { h ^= h << 13; h ^= h >> 7; h ^= h << 17; h };
-        let res = if self.mode == ViewMode::Fail { None } else {
+        let res = if let ViewMode::Uniform(l) = self.mode { Some((0..n.min(6000)).map(|i| (0..l).map(|j| ((i * 7 + j) % 90) as i64).collect()).collect::<Vec<Vec<Word>>>()) }
+        else if self.mode == ViewMode::Fail { None } else {
             let want = n.min(6);
             let cnt = match self.mode { ViewMode::Exact => want, ViewMode::Fewer => want.saturating_sub(1), ViewMode::More => want + 1, _ => 0 };
             Some((0..cnt).map(|_| { let l = (next() % 5) as usize; (0..l).map(|_| (next() % 200) as i64 - 50 + self.tag as i64 * 1000).collect() }).collect::<Vec<Vec<Word>>>())
